@@ -146,9 +146,10 @@ class World:
         return hashlib.blake2b(''.join(self.digests).encode(), digest_size=16).hexdigest()
 
     # ---- commands
-    def init(self, client, settings, opts=None, **kw):
+    def init(self, client, settings, opts=None, *, key_output_path=None, **kw):
         async def act(repo):
-            r = await repo.init(password=client.password, settings=gen.copy_settings(settings))
+            r = await repo.init(password=client.password, settings=gen.copy_settings(settings),
+                                **({'key_output_path': key_output_path} if key_output_path else {}))
             return {'config': r.config, 'key': repo.serialize(r.key) if r.key is not None else None}
         res = self.run(client, act, opts, unlock=False, **kw)
         if res.ok:
